@@ -16,6 +16,7 @@ import ParryModel.C20.Theorems13
 import ParryModel.C20.Theorems14
 import ParryModel.C20.Theorems15
 import ParryModel.C20.Theorems16
+import ParryModel.C20.Theorems17
 /-!
 # C20 theorems: definedness at the NaN-propagating instance `NaNable = Option Rat`
 (`x/0 = none`, `sqrt` of a negative = `none`, every comparison with `none` is false — IEEE behaviour).
